@@ -80,7 +80,8 @@ MAPPING_ATTRS = ["items", "keys", "values", "get", "copy", "pop", "update", "cle
 _DESC = st.sampled_from([None, None, None, None, "d", "A description.", "two\nlines", "with \"quotes\"", "  lead", "x\n  indented\nz",
                          "ends with a quote\"", "ends with a backslash\\", "has \"\"\" inside", "caf\u00e9 \U0001F600", "trailing space ",
                          "First.\n  \nSecond.", "a\n\t\nb", "a\n      \n  b\n\nc", "p\n \nq",   # interior lines of blanks only / empty
-                         " a\n b", "  every\n   line\n  indented", "\tt\n\tu"])   # every line indented (the first one too)
+                         " a\n b", "  every\n   line\n  indented", "\tt\n\tu",   # every line indented (the first one too)
+                         "  ", "x\n", "\nx", "cr\rx", "bell\x07!", "x\n\n"])   # what a block string cannot hold: blank only, leading / trailing line break, CR, control character
 DEPR_EMPTY = "<empty-reason>"   # `@deprecated(reason: "")`; the spec value "" stands for `@deprecated` without a reason
 _DEPR = st.sampled_from([None, None, None, None, None, "", "No longer supported", "use other", DEPR_EMPTY,
                          "caf\u00e9 \U0001F600 \U00020000", "say \"no\" \\ twice\nand a second line"])
